@@ -244,6 +244,24 @@ def enum_oracle(ctx):
                 ctx.record([case, "build-label", l], True, ["enum/build-label"])
                 if not (o.ok and o.value == sub.build(v)):
                     return Failure("C13/enum/build-label", "Enum(%s, %s).build(%r) -> %r, expected %s" % (subname, table, spelling, o, sub.build(v).hex()))
+        # label objects that come from ANOTHER Enum (same name, other number): a label is translated by its name through
+        # this Enum's own table; a name this table does not have is refused
+        for l, v in table:
+            for other in (v + 1, 0, 255):
+                if other == v:
+                    continue
+                foreign = C.EnumIntegerString.new(other, l)
+                o = call(con.build, foreign)
+                ctx.record([case, "build-foreign-label", l, other], True, ["enum/build-foreign-label"])
+                if not (o.ok and o.value == sub.build(v)):
+                    return Failure("C13/enum/build-foreign-label", "Enum(%s, %s).build(label %r carrying %d from another Enum) -> %r, expected %s" % (
+                        subname, table, l, other, o, sub.build(v).hex()))
+        for other in (table[0][1], 1):
+            foreign = C.EnumIntegerString.new(other, "nolabel")
+            o = call(con.build, foreign)
+            ctx.record([case, "build-foreign-unknown", other], True, ["enum/build-unknown"])
+            if o.ok or not isinstance(o.exc, C.MappingError):
+                return Failure("C13/enum/build-accepts-unknown-label", "Enum(%s, %s).build(unknown label object 'nolabel' carrying %d) -> %r" % (subname, table, other, o))
         ints = list(range(0, 256)) if not wide else [0, 1, 255, 256, 65535]
         if subname in ("VarInt", "ZigZag"):
             ints += [1 << 64, (1 << 64) + 1, 1 << 100, (1 << 200) + 7]
